@@ -1046,3 +1046,38 @@ func ruleC16f(c *Ctx) []*report.Result {
 	}
 	return []*report.Result{r}
 }
+
+func init() { register("C10.h", ruleC10h) }
+
+// Rule C10.h — who may call the byte scanner. The scanner is the buffer's and
+// the printer's tool: it appends a guard after a dangling tail and splits at
+// line feeds, which is right for text that continues in a buffer and wrong
+// for the public "replace every marker and nothing else" functions, which go
+// through the regular expressions. Its callers are in the buffer and the
+// formatting core only.
+func ruleC10h(c *Ctx) []*report.Result {
+	r := report.NewResult("C10.h", "the escaper's byte scanner is called only from the buffer package and the formatting core: the public functions that promise to replace markers and nothing else (EscapeMarkers and the methods on redactable strings) do not go through it (it guards dangling tails and splits lines, which they must not)", 2)
+	esc := c.escapeFn()
+	if esc == nil {
+		r.Undecide("escape routine not found")
+		return []*report.Result{r}
+	}
+	for _, fn := range c.P.ModuleFunctions() {
+		for _, b := range fn.Blocks {
+			for _, ins := range b.Instrs {
+				ci, ok := ins.(ssa.CallInstruction)
+				if !ok || ci.Common().StaticCallee() != esc {
+					continue
+				}
+				construct := shortFn(fn.String()) + " / calls the scanner"
+				pk := pkgPathOf(fn)
+				if pk == pkgBuffer || pk == pkgRfmt || pk == pkgEscape {
+					r.Ok(construct)
+				} else {
+					r.Fail(construct, c.P.Pos(ins.Pos()), "the byte scanner is called from "+pk+": what it returns is not \"the input with each marker replaced\" (a guard is appended after a dangling tail, line feeds may split envelopes)", nil, "")
+				}
+			}
+		}
+	}
+	return []*report.Result{r}
+}
